@@ -2,7 +2,7 @@
 # Re-run every seeded change against the current checks (own property plus
 # the cross-checks listed below). Results replace caught_by in meta.json.
 cd /verif
-for d in seeded/*/; do
+for d in ${SEEDS:-seeded/*/}; do
   x=$(basename $d)
   p=$(echo $x | cut -c1-3)
   props=$p
@@ -10,6 +10,8 @@ for d in seeded/*/; do
     C12_a) props="C12,C13";; C11_c|C11_d) props="C11,C12";;
     C19_c) props="C19,C01";; C09_d) props="C09,C08";;
     C08_d) props="C08,C10";; C01_b) props="C01,C02";; C02_c) props="C02,C01";;
+    C19_e) props="C19,C07";; C19_f) props="C19,C03";; C14_f) props="C14,C03";;
+    C12_e) props="C12,C11";; C02_f) props="C02,C13";; C14_e) props="C14,C02";;
   esac
   /venv/bin/python - "$d/meta.json" <<'PY'
 import json,sys
